@@ -65,6 +65,13 @@ def run(ctx) -> None:
     ctx.guard("C03.step-guard", step_guard_distribute)
     ctx.guard("C03.validate-before-append", validate_before_append, "C03.validate-before-append")
     ctx.guard("C03.exit", exit_saves, "C03.exit")
+    from . import objmodel
+
+    ctx.guard("C03.step-guard", objmodel.worklist_model, "C03.step-guard")
+    from . import c09 as _c09, c16 as _c16
+
+    ctx.reuse("C03.tracked-amount", _c09.list_overrides)
+    ctx.reuse("C03.step-guard", _c16.override_set)
     # a refused step ends the operation: nothing (finally: return, suppress) turns the refusal into a normal return after part of
     # the steps were booked
     ctx.reuse("C03.tracking-rejects", c02.no_swallow)
@@ -507,6 +514,11 @@ def exit_saves(ctx, rule: str) -> None:
                 ok = False
                 detail = f"saving happens when `{stmt_key(t)}` is false"
                 continue
+            # the path held in a single-definition local (`target = self._filepath; if target: ..`)
+            if isinstance(t, ast.Name):
+                t = fv.def_expr(t, d)[0]
+            elif isinstance(t, ast.Compare) and isinstance(t.left, ast.Name):
+                t = ast.Compare(left=fv.def_expr(t.left, d)[0], ops=t.ops, comparators=t.comparators)
             simple = attr_of_name(t, selfn, "_filepath") or attr_of_name(t, selfn, "filepath") or (
                 isinstance(t, ast.Compare) and len(t.ops) == 1 and isinstance(t.ops[0], ast.IsNot) and (attr_of_name(t.left, selfn, "_filepath") or attr_of_name(t.left, selfn, "filepath"))
                 and isinstance(t.comparators[0], ast.Constant) and t.comparators[0].value is None)
